@@ -311,7 +311,7 @@ def runner_cmd(src, out, view, ndebug, ubsan=False):
     else:
         cmd = [CLANG, "-std=c++20", "-O1", "-w", "-I" + INC, "-DVERIF_RUNNER"]
     if ubsan:
-        cmd += ["-fsanitize=undefined", "-fno-sanitize-recover=all", "-fno-sanitize=vptr"]
+        cmd += ["-fsanitize=undefined,float-cast-overflow", "-fno-sanitize-recover=all", "-fno-sanitize=vptr"]
     if ndebug:
         cmd.append("-DNDEBUG")
     return cmd + [src, "-o", out]
